@@ -385,6 +385,17 @@ macro_rules! roundtrip {
             if plain != bytes {
                 out.fail(Violation::new("ser_bytes", format!("serde:{fam}:serialize:bytes_depend_on_sink_behaviour"), format!("{} vs {} bytes", bytes.len(), plain.len()), "identical bytes"));
             }
+            // serialize_with_schema must write the very same bytes
+            let mut with_schema: Vec<u8> = Vec::new();
+            match orig.serialize_with_schema(&mut with_schema) {
+                Ok(_schema) => {
+                    out.checks += 1;
+                    if with_schema != bytes {
+                        out.fail(Violation::new("ser_bytes", format!("serde:{fam}:serialize_with_schema:bytes_differ"), format!("{} vs {} bytes", with_schema.len(), bytes.len()), "identical bytes"));
+                    }
+                }
+                Err(e) => out.fail(Violation::new("ser_failed", format!("serde:{fam}:serialize_with_schema:err"), format!("{e}"), "Ok")),
+            }
             let mut cmp = |what: &str, d: Digest, out: &mut Outcome| {
                 out.checks += 1;
                 out.steps += d.len() as u64;
